@@ -275,4 +275,19 @@ theorem src_rolling_indices_membership (es ns east north : List Rat) (size : Rat
   obtain ⟨cx, hcx, rfl⟩ := List.mem_map.mp hw
   exact ⟨cx, hcx, cy, hcy, fun i => window_membership_iff _ _ _ _ _ _⟩
 
+/-- **`rolling_window` as a whole, about the source as it is now:** the regenerated prelude (`Gen.rollingCentres`: guards, default region, the
+    centre region shrunk by half a window, the grid of centres) followed by the regenerated queries (`Gen.rollingIndices`) returns exactly what the
+    model's `rollingWindow` returns — centre lines and one closed-square index set per centre, row-major. -/
+theorem gen_rolling_window_eq_model (es ns : List Rat) (size : Rat) (region : Option (Rat × Rat × Rat × Rat))
+    (shape : Option (Nat × Nat)) (spacing : Option (List Rat)) (adj : String) :
+    (Gen.rollingCentres es ns size spacing (shape.map fun p => ((p.1 : Int), (p.2 : Int))) region adj).map
+        (fun c => (c.1, c.2, Gen.rollingIndices es ns c.1 c.2 size))
+      = (rollingWindow es ns size ⟨region.map C08.quadList, shape, spacing, C07.adjOf adj⟩).map fun o => (o.east, o.north, o.windows) := by
+  rw [gen_rolling_centres_eq_model]
+  cases h : rollingWindow es ns size ⟨region.map C08.quadList, shape, spacing, C07.adjOf adj⟩ with
+  | error e => rfl
+  | ok o =>
+    simp only [Except.map]
+    rw [gen_rolling_indices_eq_model es ns size _ o h]
+
 end Verde.C14
